@@ -639,8 +639,15 @@ def gen_schema(rng, opts=None):
     s.custom_default_resolver = rng.random() < 0.2
     s.custom_default_type_resolver = rng.random() < 0.2
     if o.p_gate:
-        s.directives["vtgate"] = DirectiveDef("vtgate", ["FIELD_DEFINITION", "ARGUMENT_DEFINITION"])
+        s.directives["vtgate"] = DirectiveDef("vtgate", ["FIELD_DEFINITION", "ARGUMENT_DEFINITION", "INPUT_FIELD_DEFINITION"],
+                                              [Arg("k", N("String"))])
         for t in s.types.values():
+            if t.kind == "INPUT_OBJECT":
+                for a in t.fields:
+                    if rng.random() < o.p_gate * 2:
+                        # the hook is handed the ARGUMENT's definition node, not the input field's: the field identifies
+                        # itself through the directive argument
+                        a.directives.append(("vtgate", [("k", ("string", "%s.%s" % (t.name, a.name)))]))
             if t.kind == "OBJECT":
                 for f in t.fields.values():
                     if rng.random() < o.p_gate:
